@@ -298,6 +298,11 @@ def specC02 (h : List Op) (failAt : Option Nat) (o : Obs) : Option String :=
 /-- C09: with PIDs reused after the earlier session ended, every event carries the identity of the
 login of its own use of the PID, and the sessions of the later uses are emitted completely -/
 def specC09 (h : List Op) (failAt : Option Nat) (o : Obs) : Option String :=
+  -- the clauses that hold of the model for EVERY history (reused PIDs or not) first: one login's identity as a whole,
+  -- in order and at most once, nothing emitted that a cleanup should have discarded
+  match (specWholeIdentity h o).orElse fun _ => (specOrderOnce h failAt o).orElse fun _ => specNotLate h o with
+  | some c => some c
+  | none =>
   if !wfReuse h then none else
   match specIdentity h o with
   | some c => some c
